@@ -551,6 +551,7 @@ def run(ctx):
         "dimension names, units and component labels per configuration are harness-level choices (harness/props/c06.py)",
         "on non-dyadic embeddings and for means numbers are compared with a relative tolerance (cell-length rounding, 1/n)",
     ]
+    core.df_stage(ctx, df)   # mixed histories (spec/DF.tla): the clauses that come from this property's text
     return core.finish(ctx, rule=RULE, extra={"embeddings": [e.name for e in embs]})
 
 
